@@ -1,12 +1,94 @@
+// xmppcheck decides the properties of /verif/properties.jsonl for mellium/xmpp
+// by static analysis of the repository's current source.
 package main
 
 import (
+	"flag"
 	"fmt"
-	"golang.org/x/tools/go/packages"
+	"os"
+	"sort"
+	"strconv"
+	"strings"
+
+	"verif/checker/eng"
+	"verif/checker/rules"
 )
 
 func main() {
-	cfg := &packages.Config{Mode: packages.LoadAllSyntax, Dir: "/repo"}
-	pkgs, err := packages.Load(cfg, "./...")
-	fmt.Println(len(pkgs), err)
+	prop := flag.String("property", "", "property id (C01..C20)")
+	tier := flag.String("tier", "", "quick|thorough (default $VERIF_TIER or quick)")
+	repo := flag.String("repo", "/repo", "repository root")
+	verif := flag.String("verif", "/verif", "verification directory (evidence, known findings)")
+	dump := flag.String("dump", "", "debug: dump the fact graph of pkg:func (e.g. :negotiateFeatures, mux:(*ServeMux).HandleXMPP)")
+	list := flag.Bool("list", false, "list registered properties")
+	flag.Parse()
+	if *list {
+		var ids []string
+		for id := range rules.Registry {
+			ids = append(ids, id)
+		}
+		sort.Strings(ids)
+		fmt.Println(strings.Join(ids, " "))
+		return
+	}
+	if *tier == "" {
+		*tier = os.Getenv("VERIF_TIER")
+	}
+	if *tier != "thorough" {
+		*tier = "quick"
+	}
+	var seed int64
+	if s := os.Getenv("VERIF_SEED"); s != "" {
+		seed, _ = strconv.ParseInt(s, 10, 64)
+	}
+	if *dump != "" {
+		p, err := eng.Load(*repo)
+		if err != nil {
+			fmt.Fprintln(os.Stderr, err)
+			os.Exit(2)
+		}
+		i := strings.Index(*dump, ":")
+		f := p.Func((*dump)[:i], (*dump)[i+1:])
+		if f == nil {
+			fmt.Fprintln(os.Stderr, "no such function; candidates:")
+			for _, fn := range p.Fns {
+				if strings.Contains(fn.Name, (*dump)[i+1:]) {
+					fmt.Fprintln(os.Stderr, "  ", fn.Name)
+				}
+			}
+			os.Exit(2)
+		}
+		fmt.Print(f.Graph().Dump())
+		return
+	}
+	r, ok := rules.Registry[*prop]
+	if !ok {
+		fmt.Fprintf(os.Stderr, "unknown property %q\n", *prop)
+		os.Exit(2)
+	}
+	cmd := fmt.Sprintf("/verif/bin/xmppcheck -property %s -tier %s", *prop, *tier)
+	p, err := eng.Load(*repo)
+	rep := eng.NewReport(p, *prop, *tier)
+	if err != nil {
+		rep.CheckNamed(*prop+".load", "-", "load", "repository loads and type-checks", 0, false, err.Error())
+		os.Exit(rep.Finish(*verif, r.Meta, seed, cmd))
+	}
+	func() {
+		defer func() {
+			if e := recover(); e != nil {
+				rep.CheckNamed(*prop+".panic", "-", "checker", "checker completes", 0, false, fmt.Sprintf("checker panic: %v", e))
+				if os.Getenv("XMPPCHECK_DEBUG") != "" {
+					panic(e)
+				}
+			}
+		}()
+		if len(p.Ignored) > 0 {
+			rep.CheckNamed(*prop+".load", "-", "build-constraints", "no library file excluded by build constraints", 0, false, strings.Join(p.Ignored, ","))
+		}
+		r.Run(p, rep, *tier)
+	}()
+	if len(rep.Obls) == 0 {
+		rep.CheckNamed(*prop+".empty", "-", "checker", "at least one obligation", 0, false, "no obligations generated")
+	}
+	os.Exit(rep.Finish(*verif, r.Meta, seed, cmd))
 }
